@@ -1168,7 +1168,9 @@ class ExchangeInstruction(Instruction):
         if isinstance(op1, IMemOperand) and isinstance(op2, IMemOperand):
             pre_key = (op1.mode, op2.mode)
             pre_byte = REVERSE_PRE_TABLE.get(pre_key)
-            if pre_byte is None:
+            # (BP+m), (BP+n) is the addressing the CPU uses without a PRE byte.
+            default_key = (AddressingMode.BP_N, AddressingMode.BP_N)
+            if pre_byte is None and pre_key != default_key:
                 raise ValueError(
                     f"Invalid addressing mode combination for {self.name()}: {op1.mode.value} and {op2.mode.value}"
                 )
